@@ -2,5 +2,6 @@
 pub mod cells;
 pub mod matrix;
 pub mod model;
+pub mod names;
 pub mod table;
 pub mod world;
